@@ -173,6 +173,9 @@ def runOp (kind : String) (c : Cfg) (toks : List String) (vars : List (Option VS
     | "dedup" =>
       let (v, w, r) := dedupBy c v (fun _ a b => some (a.val == b.val)) w
       some (setV vars j (some v), w, rOk r)
+    | "dedup_by_lt" =>
+      let (v, w, r) := dedupBy c v (fun _ a b => some (decide (a.val < b.val))) w
+      some (setV vars j (some v), w, rOk r)
     | "dedup_by" =>
       let (v, w, r) := dedupBy c v (fun k _ _ => if ppanic == some k then none else some (ans.getD k false)) w
       some (setV vars j (some v), w, rOk r)
